@@ -21,6 +21,7 @@ import dataclasses as dc
 import functools
 import itertools as itt
 from typing import TypeVar
+import threading
 import weakref
 
 from absl import logging
@@ -158,13 +159,19 @@ class SingletonMeta(type):
   """
 
   _instances = weakref.WeakKeyDictionary()
+  _instances_lock = threading.Lock()
 
   def __call__(cls: type[_T], *args, **kwargs) -> _T:
     obj = super(SingletonMeta, cls).__call__(*args, **kwargs)
-    if (ref := cls._instances.get(obj, None)) and (result := ref()) is not None:
-      return result
-    logging.info('chainable: %s', f'singleton {cls.__name__}, {obj}')
-    cls._instances[obj] = weakref.ref(obj)
+    # The lookup and the insertion are one step: two threads constructing the
+    # same instance at the same time have to end up with one object.
+    with cls._instances_lock:
+      if (ref := cls._instances.get(obj, None)) and (
+          result := ref()
+      ) is not None:
+        return result
+      logging.info('chainable: %s', f'singleton {cls.__name__}, {obj}')
+      cls._instances[obj] = weakref.ref(obj)
     return obj
 
   @property
